@@ -622,7 +622,6 @@ REVIEWED_DIAGNOSTIC_PANIC_SITES = {
     ('registration::Registration::attribute', 'expect'): (1, 'stated belief: same precondition'),
     ('registration_locations::blueprint_registration_arg_span', 'assert:Overflow'): (2, '`len - 1` / `len - 2` under `if segments.len() >= 2`'),
     ('registration_locations::blueprint_registration_arg_span', 'index:Punctuated'): (2, 'the two path segments indexed under `if segments.len() >= 2`'),
-    ('source_file::ParsedSourceFile::new', 'unwrap'): (1, 'syn parses a file rustc has just compiled for rustdoc'),
 }
 
 
@@ -889,6 +888,50 @@ def r9_persisted_ids_are_checked_against_the_graph(ctx):
            'ids read from the persisted access log reach compute_batch only through the package-graph filter: %s (filters found: %d)' % (bool(san) and not hit, len(san)))
 
 
+# checked subtractions in the passes that run on the blueprint as the user wrote it, confirmed by reading: (function) -> (count, why it cannot underflow)
+REVIEWED_EARLY_SUBTRACTIONS = {
+    'domain::validate': (1, '`total_length -= 1` after a loop that added `len + 1` for at least one label (an empty guard has one, empty, label)'),
+    'domain::validate::ParsedParameter::raw': (1, '`end_at - start_at`: positions of the closing and of the opening brace of one parameter, recorded in that order'),
+    '<domain::InvalidDomainConstraint as core::fmt::Display>::fmt': (1, '`n - 1` under `n > 1 &&` (short-circuit, same expression)'),
+    'user_components::router::PathRouter::assign_fallbacks': (2, '`n_chars - 1` with at least one parsed parameter (two braces) in the string; `end - start` of the braces of one parameter (C09.R6 decides the `+ 1`)'),
+}
+
+
+def r10_early_passes_do_not_underflow(ctx):
+    from ..arith import checked_sub_in, sub_is_guarded
+    ctx.rule('C09.R10', 'P3 audit with a reviewed table: the passes that run on the blueprint exactly as the user wrote it, before anything has been checked '
+             '(user_components::*, domain, route_path), do arithmetic on counts the user controls (how many `super`s an import has, how long a '
+             'label is). Every checked subtraction there is made safe by a dominating comparison of the same two values (pvx.arith), or is one of '
+             'the reviewed sites with the reason it cannot underflow: an underflow is a panic in a debug build and a wrapped count in a release '
+             'build — `from![super::super::x]` at the crate root took `usize::MAX` leading segments.')
+    found = {}
+    where = {}
+    n = 0
+    for b in ctx.fb.bodies('pavexc'):
+        if b.is_promoted:
+            continue
+        if '::user_components::' not in b.nid and '::analyses::domain' not in b.nid and '::analyses::route_path' not in b.nid:
+            continue
+        defs = None
+        for bb in sorted(b.live_blocks()):
+            if checked_sub_in(b, bb) is None or (b.term(bb).get('mo') or '') in ('debug_assert', 'debug_assert_eq', 'debug_assert_ne'):
+                continue
+            n += 1
+            defs = defs or Defs(b)
+            if sub_is_guarded(b, defs, bb):
+                continue
+            fn = b.nid.replace(PX + 'analyses::', '').replace(PX, '')
+            found[fn] = found.get(fn, 0) + 1
+            where.setdefault(fn, b.loc(bb))
+    for fn, cnt in sorted(found.items()):
+        rev = REVIEWED_EARLY_SUBTRACTIONS.get(fn)
+        ok = rev is not None and cnt <= rev[0]
+        ctx.ob('C09.R10', 'unguarded-subtraction|%s' % fn, ok, where[fn],
+               '%d checked subtraction(s) without a dominating comparison in %s: %s' % (cnt, fn, ('reviewed (%d) — %s' % rev) if rev else
+               'NOT REVIEWED: the difference of two user-controlled counts can underflow'))
+    ctx.floor('C09.R10', 'checked subtractions in the early passes', n, 4)
+
+
 def check(ctx):
     r4_nothing_assumes_success_before_the_gate(ctx)
     r1_no_silent_failure(ctx)
@@ -899,3 +942,4 @@ def check(ctx):
     r7_diagnostic_code_does_not_panic(ctx)
     r8_documentation_errors_are_reported(ctx)
     r9_persisted_ids_are_checked_against_the_graph(ctx)
+    r10_early_passes_do_not_underflow(ctx)
